@@ -82,7 +82,7 @@ fn cmd_drive(args: &[String]) -> i32 {
     let run_s = t0.elapsed().as_secs_f64();
     std::fs::create_dir_all(&replay_dir).ok();
     let mut viols = Vec::new();
-    for (d, s) in st.divergences.iter().take(2) {
+    for (d, s) in st.divergences.iter().take(4) {
         let rp = drive::minimise(&ctx, &refs, d, s, seed);
         let path = format!("{replay_dir}/C19-{seed}-{}.json", s.index);
         std::fs::write(&path, serde_json::to_string_pretty(&rp).unwrap()).unwrap();
